@@ -291,10 +291,10 @@ def corr_damage(pid, tier, seed):
             "extra_engine_flips": flips}
 
 
-def corr_simple(pid, tier, seed, gen, nq, nt, oracle_props, rule, dflags="-noevents"):
+def corr_simple(pid, tier, seed, gen, nq, nt, oracle_props, rule, dflags="-noevents", extra=""):
     rundir = _rundir(pid)
     scen = corpus_scenarios(pid)
-    s, hist = gen_scripts(gen, seed, nq if tier == "quick" else nt, rundir)
+    s, hist = gen_scripts(gen, seed, nq if tier == "quick" else nt, rundir, extra=extra)
     scen.extend(s)
     for i, sc in enumerate(scen):
         sc[0] = "S %d" % i
@@ -404,8 +404,10 @@ REGISTRY = {
                         "file listings (ids, logical sizes, merge directory presence) after every merge, close and open are compared between model and implementation; batch ids non-zero; file-system calls do not fail"],
     },
     "C18": {
-        "corr": lambda tier, seed: corr_engine("C18", tier, seed, "mergeheavy,racingmerge,batches,bigvals", 100, 2500, ops=30,
-                                               dflags="-noevents -skip stat", oracle_props=["C18", "C06", "C02", "C01"]),
+        "corr": lambda tier, seed: corr_merge_results(
+            corr_engine("C18", tier, seed, "mergeheavy,racingmerge,batches,bigvals", 100, 2500, ops=30,
+                        dflags="-noevents -skip stat", oracle_props=["C18", "C06", "C02", "C01"]),
+            corr_crash("C18", tier, seed + 9, ["merge"], 20, 400, oracle_props=["C18", "C07", "C03"])),
         "assumptions": ["after every successful merge the harness decodes the hint file and the rewritten files with the package's own readers and compares them entry by entry (implementation-side oracle), and the digest of the hint entries with the model's hint file; positions and sizes of all keys are compared with the model after the adopting Open (hint path) and after the next Open (scan path)",
                         "hint records are framed and CRC-protected like data records (C11); the varint encoding of a hint record is compared through the byte counts of the hint-file writes and the decoded entries"],
     },
@@ -421,7 +423,10 @@ REGISTRY = {
                         "the refinement theorems assume distinct versions for distinct incarnations of a key and that no user key equals an internal element key (both rest on nanosecond clock readings); the sorted-set collision D22, which needs neither, is a known finding"],
     },
     "C07": {
-        "corr": lambda tier, seed: corr_crash("C07", tier, seed, ["merge"], 60, 1200, oracle_props=["C07", "C03", "C04"]),
+        "corr": lambda tier, seed: corr_merge_results(
+            corr_crash("C07", tier, seed, ["merge"], 60, 1200, oracle_props=["C07", "C03", "C04"]),
+            corr_engine("C07", tier, seed + 11, "mergeheavy,racingmerge,batches", 30, 800, ops=25,
+                        dflags="-noevents -skip stat,pos", oracle_props=["C07", "C06", "C02"], offset=100000)),
         "assumptions": ["crash model: the process dies between two file-system calls (write, rename, remove, remove-all, create, truncate, sync); each call is atomic; nothing already written is lost",
                         "the theorems describe the directory states an interrupted Merge / adoption can leave (marker absent: anything in the merge directory; marker present: rewritten files j..n-1 still to move, hint moved or not); that the event-level crash images of the model (Crash.v) and of the real engine at every single event are such states is established by running both on every image (this run), not by a theorem",
                         "every image is opened twice by the real engine (second Open = retry after recovery / second adoption attempt) and by the model; a crash during the retry is covered by the theorem's quantification over all states of the family"],
@@ -435,7 +440,7 @@ REGISTRY = {
                         "file-system calls do not fail"],
     },
     "C08": {
-        "corr": lambda tier, seed: corr_simple("C08", tier, seed, "concgen", 60, 1500, ["C08", "C09", "C01", "C02"],
+        "corr": lambda tier, seed: corr_simple("C08", tier, seed, "concgen", 60, 1500, ["C08", "C09", "C01", "C02", "C07"],
                                                "harness/vh concgen: (a) stepped schedules - 2 to 4 clients (real goroutines) on overlapping keys, every interleaving position drawn at random, Get split at the schedule point between index lookup and file read (hook H6), results of every completed call compared with the Conc model run on the same schedule and with a reference fixed at each call's linearization point; (b) a writer parked inside its critical section (hooks put.appended / delete.checked / delete.appended) while a second client calls Put / Delete / Get: a writer must stay blocked; (c) free-running stress of 2-8 goroutines (every fourth scenario, half of them with a concurrent Merge): call/return order and results checked for per-key linearizability, live mapping = final reads = mapping after a restart"),
         "assumptions": ["the decomposition of calls into atomic actions (Put and Delete: one critical section of the engine lock containing append and index update; Get: index lookup, then file read) is extracted from db.go by translator T2 and checked by a theorem on every run; sync.RWMutex, the shard locks and the Go memory model are trusted",
                         "ListKeys, Fold, iterators, batches and Merge running concurrently are exercised by the stress part (and Merge with racing writers by C06's mergei scenarios), not covered by the linearizability theorem"],
@@ -471,8 +476,12 @@ REGISTRY = {
                         "the engine-level sweep has no model counterpart (the engine model is record level); the byte-level reader model is compared with the real reader on every damaged file of the file-layer part"],
     },
     "C13": {
-        "corr": lambda tier, seed: corr_engine("C13", tier, seed, "restarts,batches,merges,bigvals", 160, 4000, ops=30,
-                                               dflags="", oracle_props=["C13"]),
+        "corr": lambda tier, seed: corr_merge_results(
+            corr_engine("C13", tier, seed, "restarts,batches,merges,bigvals", 160, 4000, ops=30,
+                        dflags="", oracle_props=["C13"]),
+            corr_simple("C13", tier, seed + 5, "concgen", 12, 300, ["C13"],
+                        "second part: free-running writers (2-8 goroutines, some with a concurrent Merge) under SyncStrategy Always; the file hook numbers the writes, a flush announced on a file covers the writes announced before it, and every Put / Delete that returns must find its own write covered",
+                        extra="-stress 1 -always")),
         "assumptions": ["a Sync event (fsync / msync) makes the bytes written so far durable: the OS contract, not modelled further",
                         "the I/O event sequence of every call (kind, file, byte count, order) is compared between the real engine (hook H1/H2) and the model; the oracle recomputes written/synced bytes per file from the real events",
                         "C13_sync_invariant_every_step covers merge-free histories, C13_sync_invariant_with_merges / C13_step_with_merges histories with merges, adopting restarts and later restarts (invariant SyncG: the files of a finished merge waiting in the side directory are closed and flushed)"],
@@ -486,8 +495,10 @@ REGISTRY = {
                         "byte-identical file layout across sync strategy / I/O type is not proved; layouts are compared with the model (positions, file sizes) in the C17/C11 checks"],
     },
     "C17": {
-        "corr": lambda tier, seed: corr_engine("C17", tier, seed, "restarts,batches,merges,bigvals", 120, 3000, ops=30,
-                                               dflags="-noevents", oracle_props=["C17"]),
+        "corr": lambda tier, seed: corr_merge_results(
+            corr_engine("C17", tier, seed, "restarts,batches,merges,bigvals", 120, 3000, ops=30,
+                        dflags="-noevents", oracle_props=["C17"]),
+            corr_crash("C17", tier, seed + 3, ["batch"], 16, 400, oracle_props=["C17"])),
         "assumptions": ["the size equation is proved for merge-free histories with restarts and for histories with merges without restart; the adopting restart (hint path) and the file-size limit are covered by the correspondence run (Stat, positions and file sizes compared with the model at every step) and the oracle",
                         "oracle on the implementation: Stat.KeyNum = live keys, 0 <= Reclaimable <= DiskSize, DiskSize - Reclaimable = sum of the sizes of the live positions, DataFileNum = open files"],
     },
